@@ -223,6 +223,17 @@ class KindDomain(Domain):
             isinstance(e, ast.UnaryOp) and isinstance(e.op, ast.Not)
         ):
             return frozenset({BOOLEAN})
+        if isinstance(e, ast.Subscript) and isinstance(e.slice, ast.Slice):
+            # a slice of a string is a string, of an array an array (`key[1:]`)
+            base = self.kinds_of(e.value, state)
+            if base and base <= {STRING, ARRAY}:
+                return base
+        if isinstance(e, ast.Call) and isinstance(e.func, ast.Attribute) and e.func.attr in (
+                "removeprefix", "removesuffix", "strip", "lstrip", "rstrip", "lower", "upper", "replace", "format", "join", "decode"):
+            # (only strings have these methods; anything else has raised AttributeError before a value exists)
+            return frozenset({STRING})
+        if isinstance(e, ast.NamedExpr):
+            return self.kinds_of(e.value, state)
         return ALL_KINDS
 
     # transfer
